@@ -1,7 +1,7 @@
 (* Properties.v — the property theorems, and nothing else.  Each is closed by [exact] of a lemma
    proved in the Proofs* files and followed by Print Assumptions. *)
 From Coq Require Import Permutation.
-From Godi Require Import Base GDfs GKahn GKahnComplete GraphSpec Conc Web Model Check ProofsGraph ProofsConc ProofsWeb ProofsRegistry ProofsRuntime ProofsClosed ProofsTerm ProofsWf ProofsSingle ProofsOutputs ProofsFresh ProofsGen ProofsFrame ProofsFrozen ProofsOnce ProofsConserve ProofsOnceWorld ProofsCloses ProofsOrder ProofsStable ProofsCalls ProofsAccepted ProofsCascade ProofsErrIff ProofsBuildOnce.
+From Godi Require Import Base GDfs GKahn GKahnComplete GraphSpec Conc Web Model Check ProofsGraph ProofsConc ProofsWeb ProofsRegistry ProofsRuntime ProofsClosed ProofsTerm ProofsWf ProofsSingle ProofsOutputs ProofsFresh ProofsGen ProofsFrame ProofsFrozen ProofsOnce ProofsConserve ProofsOnceWorld ProofsCloses ProofsOrder ProofsStable ProofsCalls ProofsAccepted ProofsCascade ProofsErrIff ProofsBuildOnce ProofsForeign.
 
 (* ---------------------------------------------------------------- C01 *)
 Theorem C01_resolving_a_singleton_is_a_table_read : forall fuel rs h d,
@@ -681,6 +681,35 @@ Theorem C17_built_providers_unaffected_by_collection_calls : forall w o,
   w_provs w' = w_provs w /\ w_invs w' = w_invs w /\ w_cancelled w' = w_cancelled w /\ snd (fst (step w o)) = [].
 Proof. exact coll_ops_leave_providers. Qed.
 Print Assumptions C17_built_providers_unaffected_by_collection_calls.
+
+(* "a provider that has been built is unaffected by later changes to the collection", and the converse a rebuilt provider
+   needs: a Build runs the constructors of the registrations the collection holds at that moment and of no other (nothing
+   of a registration removed before this Build, whatever an earlier Build saw), the provider it appends holds exactly
+   that collection, and that provider's resolutions run only constructors of registrations in it *)
+Theorem C17_build_runs_only_what_the_collection_holds : forall w ord r,
+  (forall d, In d (w_coll w) -> ds_rid d <> r) ->
+  cnt r (snd (fst (step w (OBuild ord)))) = 0.
+Proof. exact world_build_runs_only_what_the_collection_holds. Qed.
+Print Assumptions C17_build_runs_only_what_the_collection_holds.
+
+Theorem C17_build_appends_a_provider_of_the_current_collection : forall w ord n,
+  snd (step w (OBuild ord)) = RCount n ->
+  let w' := fst (fst (step w (OBuild ord))) in
+  n = length (w_provs w) /\ p_descs (get_prov w' n) = w_coll w /\ w_coll w' = w_coll w.
+Proof. exact world_build_appends_a_provider_of_the_current_collection. Qed.
+Print Assumptions C17_build_appends_a_provider_of_the_current_collection.
+
+Theorem C17_resolution_runs_only_what_the_provider_was_built_from : forall w pi h t n r,
+  (forall d, In d (p_descs (get_prov w pi)) -> ds_rid d <> r) ->
+  cnt r (snd (fst (step w (OResolve pi h t n)))) = 0.
+Proof. exact world_resolution_runs_only_what_the_provider_was_built_from. Qed.
+Print Assumptions C17_resolution_runs_only_what_the_provider_was_built_from.
+
+Theorem C17_group_resolution_runs_only_what_the_provider_was_built_from : forall w pi h t g r,
+  (forall d, In d (p_descs (get_prov w pi)) -> ds_rid d <> r) ->
+  cnt r (snd (fst (step w (OResolveGroup pi h t g)))) = 0.
+Proof. exact world_group_resolution_runs_only_what_the_provider_was_built_from. Qed.
+Print Assumptions C17_group_resolution_runs_only_what_the_provider_was_built_from.
 
 (* ---------------------------------------------------------------- C18 *)
 Theorem C18_context_is_the_scopes_own : forall recd rs h, req recd rs h T_CTX KNone = (rs, ROkV (ACtx h)).
